@@ -103,7 +103,7 @@ def gen(seed):
         if k == 'sleep':
             ops.append(['sleep', rng.choice([0.02, 0.1, 0.35, 3.0])])
         elif k == 'reconnect':
-            ops.append(['reconnect', rng.choice(['close', 'drop'])])
+            ops.append(['reconnect', rng.choice(['close', 'drop']), rng.random() < 0.3])
         elif k == 'synclog':
             ops.append(['synclog', ci, rng.choice([1, 3, 10]), rng.choice(['break', 'close', 'drop'])])
         else:
@@ -268,6 +268,16 @@ def execute(ctx):
                 settle(0.3)
                 st['session'] += 1
                 ctx.probe('reconnect')
+                if len(op) > 2 and op[2] and not st.get('upgraded'):
+                    # the Crazyflie comes back with a newer firmware that has the variable that was missing
+                    from world.simcf import LogVar
+                    dev.log_toc.append(LogVar('nosuch', 'variable', 3))
+                    dev.log_crc = (dev.log_crc + 1) & 0xFFFFFFFF
+                    devlog.append(['nosuch', 'variable', 3])
+                    idx_of['nosuch.variable'] = len(dev.log_toc) - 1
+                    type_of['nosuch.variable'] = 3
+                    st['upgraded'] = True
+                    ctx.probe('firmware upgraded between connections')
                 if not connect(cf):
                     return
             elif k == 'synclog':
@@ -327,6 +337,11 @@ def do_add(ctx, cf, dev, c, devlog, st):
     c['accepted'] = True
     c['added_session'] = st['session']
     c.setdefault('ids', {})[st['session']] = lc.id
+    want = sorted(v[1] for v in pc['vars'])
+    have = sorted(v.name for v in lc.variables)
+    if want != have:
+        ctx.violation('5', 'variable-list-differs-from-configuration', 'configured %r, the accepted configuration holds %r'
+                      % (want[:10], have[:10]))
     # clause 5: re-adding (e.g. after a reconnect) does not change the variable list
     after = var_sig(lc)
     if c['vars_at_first_add'] is None:
